@@ -693,8 +693,8 @@ func (w *W) viewLevel(lv slog.Level) (v levelView) {
 
 func (w *W) execLevelQuery(task int, op *scen.Op) {
 	type out struct {
-		All    []int       `json:"all"`
-		Views  []levelView `json:"views"`
+		All    []int          `json:"all"`
+		Views  []levelView    `json:"views"`
 		Parses map[string]int `json:"parses,omitempty"`
 	}
 	var o out
